@@ -190,19 +190,19 @@ func sequentialScenario(sc *Scenario) bool {
 var specs = map[string]propSpec{
 	"C05": {
 		id:         "C05",
-		profile:    Profile{Gated: 30, AutoFail: true, Cancels: false, Shutdown: true, Conc: []int{0, 0, 1, 2}, EarlyPct: 40, SharedCtx: true, Concurrent: true},
+		profile:    Profile{Gated: 30, AutoFail: true, Cancels: false, Shutdown: true, Conc: []int{0, 0, 1, 2}, EarlyPct: 40, SharedCtx: true, Concurrent: true, MetaPct: 25},
 		verdict:    VerdictC05,
 		nontrivial: func(f facts, h *History) bool { return f.split || f.merged },
 	},
 	"C06": {
 		id:         "C06",
-		profile:    Profile{Gated: 70, HonourCancel: 30, AutoFail: true, Cancels: true, Deadlines: true, Shutdown: true, Conc: []int{0, 0, 1, 2, 3}, EarlyPct: 15, SharedCtx: true, Concurrent: true},
+		profile:    Profile{Gated: 70, HonourCancel: 30, AutoFail: true, Cancels: true, Deadlines: true, Shutdown: true, Conc: []int{0, 0, 1, 2, 3}, EarlyPct: 15, SharedCtx: true, Concurrent: true, MetaPct: 20},
 		verdict:    VerdictC06,
 		nontrivial: func(f facts, h *History) bool { return f.mixedOutcome || f.cancelPartial },
 	},
 	"C09": {
 		id:         "C09",
-		profile:    Profile{Gated: 0, Conc: []int{0}, EarlyPct: 30, Concurrent: true},
+		profile:    Profile{Gated: 0, Conc: []int{0}, EarlyPct: 30, Concurrent: true, MetaPct: 25},
 		verdict:    VerdictC09,
 		nontrivial: func(f facts, h *History) bool { return f.timerFlushAfterSize },
 	},
@@ -214,13 +214,13 @@ var specs = map[string]propSpec{
 	},
 	"C11": {
 		id:         "C11",
-		profile:    Profile{Gated: 85, HonourCancel: 30, Cancels: true, Deadlines: true, Shutdown: true, Conc: []int{0, 1, 1, 2, 3}, EarlyPct: 25, SharedCtx: true, Concurrent: true, Meta: false},
+		profile:    Profile{Gated: 85, HonourCancel: 30, Cancels: true, Deadlines: true, Shutdown: true, Conc: []int{0, 1, 1, 2, 3}, EarlyPct: 25, SharedCtx: true, Concurrent: true, MetaPct: 25},
 		verdict:    VerdictC11,
 		nontrivial: func(f facts, h *History) bool { return h.Sc.Gated && len(h.Exports) >= 2 },
 	},
 	"C18": {
 		id:         "C18",
-		profile:    Profile{Gated: 80, HonourCancel: 80, Cancels: true, Deadlines: true, Spans: true, Conc: []int{0, 0, 2}, EarlyPct: 10, SharedCtx: true, Concurrent: true},
+		profile:    Profile{Gated: 80, HonourCancel: 80, Cancels: true, Deadlines: true, Spans: true, Conc: []int{0, 0, 2}, EarlyPct: 10, SharedCtx: true, Concurrent: true, MetaPct: 20},
 		verdict:    VerdictC18,
 		nontrivial: func(f facts, h *History) bool { return f.twoContrib || f.oddLast },
 	},
